@@ -1880,6 +1880,11 @@ func (h *fsHandler) newCompressedFSFile(filePath, fileEncoding string) (*fsFile,
 
 func (h *fsHandler) openFSFile(filePath string, mustCompress bool, fileEncoding string) (*fsFile, error) {
 	filePathOriginal := filePath
+	if mustCompress && h.root != "" && filePath == h.root {
+		// The root itself is a directory. The compressed variant of its path
+		// would be a sibling of the root, i.e. a file outside of it.
+		mustCompress = false
+	}
 	if mustCompress {
 		filePath += h.compressedFileSuffixes[fileEncoding]
 	}
